@@ -95,6 +95,12 @@ def text_programs(seed, n, gates):
                     else:
                         items.append("(e (lit %d))" % r.range(-1000, 1000))
                 # a first literal is not followed by values only when it could be taken for a format
+                # text that LOOKS like a conversion in a later argument is plain text (the first argument is a value here)
+                # — as the LAST argument only: a literal with a conversion that is followed by further arguments is used as a format
+                # for them by the implementation, wherever it stands (calibration; the property does not say which argument
+                # may be the format)
+                if items and items[0].startswith("(e ") and r.chance(50):
+                    items.append("(s %s)" % q(r.choice(["75%d", "%s", "rate %lld", "100%", "%", "50% off", "%c%c", "%5d|", "%-08.3f", "a%db"])))
                 st.append("(print %s)" % " ".join(items))
             elif k < 5:
                 # interpolation: text (braces doubled by the printer), values, specs
